@@ -570,8 +570,12 @@ func runCase(cs *Case, onRec func(reqRecord)) (res Result) {
 	}
 
 	// let the server read what the client wrote last (it is asynchronous)
+	tq := time.Now()
 	for {
 		_, _, _, last := srv.snapshot()
+		if last.Before(tq) {
+			last = tq
+		}
 		if time.Since(last) >= 40*time.Millisecond {
 			break
 		}
